@@ -6,6 +6,7 @@
 #ifndef VERIF_VEC_CAP
 #define VERIF_VEC_CAP 8
 #endif
+#define VERIF_TYPE_CALL
 #include "expr_tree.h"
 
 extern "C" {
@@ -30,6 +31,22 @@ size_t expression_t::get_size__contract() const { return data == nullptr ? 0 : d
 const symbol_t expression_t::get_symbol__contract() const { return symbol_t(); }
 
 struct TypeException { int id; };
+/* ---- callee types (expr_call_end): identities 5000..5999 are callable; kind and arity are functions of the identity -------
+   id % 4: 0 FUNCTION, 1 FUNCTION_EXTERNAL, 2 PROCESS_SET, 3 not callable;  (id / 4) % 5: size() (functions: result + parameters;
+   process sets: unbound parameters).  A process type has identity 900000; an array over it one dimension deeper is 10000 less,
+   so that the stub's get_sub() (identity + 10000) undoes create_array. */
+kind_t type_t::get_kind() const { if (id < 5000 || id >= 6000) return INT; return id % 4 == 0 ? FUNCTION : id % 4 == 1 ? FUNCTION_EXTERNAL : id % 4 == 2 ? PROCESS_SET : INT; }
+size_t type_t::size() const { return (id >= 5000 && id < 6000) ? (size_t)((id / 4) % 5) : 0; }
+type_t type_t::operator[](uint32_t i) const { return type_t(id + 20000 + (int)i); }
+type_t type_t::create_process(const frame_t&) { return type_t(900000); }
+type_t type_t::create_array(type_t sub, type_t) { return type_t(sub.id - 10000); }
+struct verif_params { symbol_t operator[](size_t i) const { return symbol_t((int)i); } };
+struct template_t;
+struct instance_t { size_t unbound; verif_params parameters; template_t* templ; };
+struct template_t : public instance_t { frame_t frame; };
+static template_t g_templ;
+static instance_t g_inst;
+void* symbol_t::get_data() const { return (void*)&g_inst; }
 class ExpressionBuilder
 {
 public:
@@ -58,6 +75,7 @@ public:
     void expr_ternary(kind_t, bool firstMissing);
     void expr_inline_if();
     void expr_comma();
+    void expr_call_end(uint32_t n);
 };
 }  // namespace UTAP
 #include "builder_funcs.inc" /* REAL callbacks */
@@ -82,6 +100,20 @@ void w02_init(int d, int k0, int k1, int k2, int k3, int k4, int k5, int t0, int
             eb.fragments.push(e);
         }
     }
+}
+/* the callee of a process-set lookup is an instance with `unbound` free parameters */
+void w02_instance(int unbound) { g_inst.unbound = (size_t)unbound; g_inst.templ = &g_templ; g_templ.templ = &g_templ; }
+void w02_call_end(int n) { eb.expr_call_end((uint32_t)n); }
+/* the ARRAY chain of a process-set lookup, from the top: level j (0 = outermost): what 0 kind, 1 identity of the index operand
+   (child 1), 2 identity of child 0 when it is an operand (else 999), 3 type id */
+int w02_chain(int j, int what)
+{
+    expression_t e = eb.fragments[0];
+    for (int k = 0; k < 4; k++) { if (k < j) e = e.data->sub[0]; }
+    if (what == 0) return (int)e.data->kind;
+    if (what == 3) return e.data->type.id;
+    if (what == 1) return e.data->sub.size() == 2 ? ident(e.data->sub[1].data) : -2;
+    return e.data->sub.size() >= 1 ? ident(e.data->sub[0].data) : -2;
 }
 int w02_depth(void) { return (int)eb.fragments.size(); }
 static int ident(const expression_t::expression_data* p)
